@@ -204,3 +204,173 @@ func (in *Interp) installLibStubs() {
 		return in.newAbstractBytes(args[0], 4)
 	}
 }
+
+// ---- reflect (only what utils.CompareAny uses): the dynamic type is known concretely.
+type ReflV struct{ iv IfaceV }
+
+func reflKind(t types.Type) uint64 {
+	if t == nil {
+		return 0
+	}
+	switch u := t.Underlying().(type) {
+	case *types.Basic:
+		switch u.Kind() {
+		case types.Bool:
+			return 1
+		case types.Int:
+			return 2
+		case types.Int8:
+			return 3
+		case types.Int16:
+			return 4
+		case types.Int32:
+			return 5
+		case types.Int64:
+			return 6
+		case types.Uint:
+			return 7
+		case types.Uint8:
+			return 8
+		case types.Uint16:
+			return 9
+		case types.Uint32:
+			return 10
+		case types.Uint64:
+			return 11
+		case types.Uintptr:
+			return 12
+		case types.Float32:
+			return 13
+		case types.Float64:
+			return 14
+		case types.String:
+			return 24
+		}
+	case *types.Array:
+		return 17
+	case *types.Chan:
+		return 18
+	case *types.Signature:
+		return 19
+	case *types.Interface:
+		return 20
+	case *types.Map:
+		return 21
+	case *types.Pointer:
+		return 22
+	case *types.Slice:
+		return 23
+	case *types.Struct:
+		return 25
+	}
+	return 0
+}
+
+func (in *Interp) installReflectStubs() {
+	S := in.stubs
+	S["reflect.ValueOf"] = func(in *Interp, fn *ssa.Function, a []Value) Value {
+		return ReflV{a[0].(IfaceV)}
+	}
+	S["(reflect.Value).Kind"] = func(in *Interp, fn *ssa.Function, a []Value) Value {
+		return BVu(64, reflKind(a[0].(ReflV).iv.t))
+	}
+	S["(reflect.Value).Int"] = func(in *Interp, fn *ssa.Function, a []Value) Value {
+		rv := a[0].(ReflV)
+		k := reflKind(rv.iv.t)
+		if k < 2 || k > 6 {
+			in.abort("panic", "reflect: call of reflect.Value.Int on non-int Value")
+		}
+		return SignExt(rv.iv.v.(*Term), 64)
+	}
+	S["(reflect.Value).Uint"] = func(in *Interp, fn *ssa.Function, a []Value) Value {
+		rv := a[0].(ReflV)
+		k := reflKind(rv.iv.t)
+		if k < 7 || k > 12 {
+			in.abort("panic", "reflect: call of reflect.Value.Uint on non-uint Value")
+		}
+		return ZeroExt(rv.iv.v.(*Term), 64)
+	}
+	S["(reflect.Value).Float"] = func(in *Interp, fn *ssa.Function, a []Value) Value {
+		rv := a[0].(ReflV)
+		switch reflKind(rv.iv.t) {
+		case 14:
+			return rv.iv.v
+		case 13:
+			return in.convert(rv.iv.v, types.Typ[types.Float32], types.Typ[types.Float64])
+		}
+		in.abort("panic", "reflect: call of reflect.Value.Float on non-float Value")
+		return nil
+	}
+	S["(reflect.Value).String"] = func(in *Interp, fn *ssa.Function, a []Value) Value {
+		rv := a[0].(ReflV)
+		if reflKind(rv.iv.t) != 24 {
+			return strConst("<non-string Value>")
+		}
+		return rv.iv.v
+	}
+	// strings helpers on concrete separators
+	S["strings.Split"] = func(in *Interp, fn *ssa.Function, a []Value) Value {
+		s, sep := a[0].(StrV), a[1].(StrV)
+		sp, ok := sep.concrete()
+		if !ok || len(sp) != 1 {
+			in.abort("unsupported", "strings.Split with symbolic or multi-byte separator")
+		}
+		var parts []Value
+		cur := []*Term{}
+		for _, c := range s.b {
+			if !c.IsConst() {
+				// a symbolic byte may or may not be the separator
+				if in.branch(Eq(c, BVu(8, uint64(sp[0])))) {
+					parts = append(parts, StrV{cur})
+					cur = []*Term{}
+					continue
+				}
+				cur = append(cur, c)
+				continue
+			}
+			if byte(c.Uint()) == sp[0] {
+				parts = append(parts, StrV{cur})
+				cur = []*Term{}
+			} else {
+				cur = append(cur, c)
+			}
+		}
+		parts = append(parts, StrV{cur})
+		arr := make([]*Loc, len(parts))
+		for i, p := range parts {
+			arr[i] = &Loc{v: p}
+		}
+		return SliceV{arr: arr, n: len(arr), cp: len(arr)}
+	}
+	S["strings.ToLower"] = func(in *Interp, fn *ssa.Function, a []Value) Value {
+		s := a[0].(StrV)
+		out := make([]*Term, len(s.b))
+		for i, c := range s.b {
+			if !c.IsConst() {
+				// ASCII summary: non-ASCII bytes are outside the encodable domain
+				if !in.branch(CmpBV("bvult", c, BVu(8, 0x80))) {
+					in.abort("unsupported", "strings.ToLower on non-ASCII byte (Unicode folding not modelled)")
+				}
+			} else if c.Uint() >= 0x80 {
+				in.abort("unsupported", "strings.ToLower on non-ASCII byte (Unicode folding not modelled)")
+			}
+			isUp := And(CmpBV("bvule", BVu(8, 'A'), c), CmpBV("bvule", c, BVu(8, 'Z')))
+			out[i] = Ite(isUp, BinBV("bvadd", c, BVu(8, 32)), c)
+		}
+		return StrV{out}
+	}
+	S["strings.HasPrefix"] = func(in *Interp, fn *ssa.Function, a []Value) Value {
+		s, p := a[0].(StrV), a[1].(StrV)
+		if len(p.b) > len(s.b) {
+			return Bool(false)
+		}
+		return in.valEq(StrV{s.b[:len(p.b)]}, p)
+	}
+	S["bytes.HasPrefix"] = func(in *Interp, fn *ssa.Function, a []Value) Value {
+		s, p := sliceBytes(a[0].(SliceV)), sliceBytes(a[1].(SliceV))
+		if len(p) > len(s) {
+			return Bool(false)
+		}
+		return in.valEq(StrV{s[:len(p)]}, StrV{p})
+	}
+}
